@@ -21,7 +21,7 @@ ANCHORS = ["State.__eq__", "Lanelet.__eq__", "Obstacle.__eq__", "Obstacle.__hash
            "TrafficSign.__eq__", "Intersection.__eq__"]
 REQUIRED = ["law.reflexive", "law.deepcopy", "law.symmetric", "law.twin", "law.perturbation", "law.hash-total",
             "law.hash-consistent", "defaults-instance", "law.kwargs-order", "law.cross-class-state", "law.optional-subsets", "law.derived-attribute-twin",
-            "coordinates-of-different-magnitude", "law.after-update_initial_state", "law.assembly-twin", "law.moved-after-compared", "law.other-representation", "law.inspected-twin", "perturbation.emptied-collection",
+            "coordinates-of-different-magnitude", "law.after-update_initial_state", "law.assembly-twin", "law.moved-after-compared", "law.other-representation", "law.other-representation.array-dtype", "law.inspected-twin", "perturbation.emptied-collection",
             "class.Polygon.large", "class.Lanelet.large"]
 ASSUMPTIONS = ["perturbations are clearly different valid values (never a duplicate; a reordering only for the member lists of shape groups and light cycles, whose order carries meaning)",
                "real perturbations are >= 1e-6, i.e. far above the documented 1e-10 resolution"]
@@ -729,6 +729,25 @@ def run(ctx):
                     rep.append((p_, np_.int64(v_)))
                 elif isinstance(v_, float) and v_ == int(v_) and abs(v_) < 2 ** 40:
                     rep.append((p_, int(v_)))
+            # arrays: the same integer-valued coordinates once as a float array, once as an integer array
+            for p_, v_ in kw.items():
+                if isinstance(v_, np_.ndarray) and v_.dtype.kind == "f" and v_.size and np_.abs(v_).max() < 2 ** 40:
+                    fa_ = np_.round(v_)
+                    xa = safe(lambda: make(mkgen())[0](**dict(make(mkgen())[1], **{p_: fa_.astype(float)})))
+                    ya = safe(lambda: make(mkgen())[0](**dict(make(mkgen())[1], **{p_: fa_.astype(int)})))
+                    if xa[0] != "ok" or ya[0] != "ok":
+                        continue
+                    ctx.feature("law.other-representation.array-dtype")
+                    ctx.evaluation()
+                    r = eq_ops(xa[1], ya[1])
+                    if r[0] == "exc":
+                        continue
+                    if r[1][0] != r[1][1] or r[1][2] != r[1][3] or r[1][0] == r[1][2]:
+                        V("not-symmetric", "%s as float / int array: %s" % (p_, r[1],), p_)
+                    elif r[1][0]:
+                        ha_, hb_ = safe(hash, xa[1]), safe(hash, ya[1])
+                        if ha_[0] == "ok" and hb_[0] == "ok" and ha_[1] != hb_[1]:
+                            V("equal-but-hash-differs", "%s given as float array / as integer array" % p_, p_)
             for p_, alt in rep[:6]:
                 y11 = safe(lambda: make(mkgen())[0](**dict(make(mkgen())[1], **{p_: alt})))
                 if y11[0] != "ok":
